@@ -55,6 +55,23 @@ func (p *Program) TermOnPath(pa *Path, v ssa.Value) *Term {
 	return p.termOf(v, map[ssa.Value]bool{}, 0)
 }
 
+func operandRank(t *Term) int {
+	switch {
+	case t.Op == "const":
+		return 3
+	case strings.Contains(t.String(), "µ"):
+		return 2
+	case t.Op == "builtin" && t.Name == "len", t.Op == "convert" && len(t.Args) == 1 && t.Args[0].Op == "builtin" && t.Args[0].Name == "len":
+		return 1
+	}
+	return 0
+}
+
+func isStringType(t types.Type) bool {
+	b, ok := t.Underlying().(*types.Basic)
+	return ok && b.Info()&types.IsString != 0
+}
+
 func mk(op, name string, v ssa.Value, args ...*Term) *Term {
 	return &Term{Op: op, Name: name, V: v, Args: args}
 }
@@ -120,12 +137,46 @@ func (p *Program) termOf1(v ssa.Value, busy map[ssa.Value]bool, depth int) *Term
 	case *ssa.MakeClosure:
 		t := mk("closure", funcName(v.Fn.(*ssa.Function)), v)
 		t.Fn = v.Fn.(*ssa.Function)
+		// what the closure captures (a captured local is described by what was stored into it), so
+		// that provenance questions ("is it seeded with req.X?") see through the capture
+		if depth < 6 {
+			for _, b := range v.Bindings {
+				if busy[b] {
+					continue
+				}
+				if al, isAl := b.(*ssa.Alloc); isAl {
+					if whole, _ := p.storesTo(al); len(whole) >= 1 && !busy[whole[0]] {
+						t.Args = append(t.Args, mk("captured", "", b, rec(whole[0])))
+						continue
+					}
+				}
+				t.Args = append(t.Args, mk("captured", "", b, rec(b)))
+			}
+		}
 		return t
 	case *ssa.Alloc:
 		// the address itself (pointer value): composite literal / new / spilled local
 		return mk("alloc", typeStr(v.Type()), v)
 	case *ssa.MakeSlice:
-		return mk("alloc", typeStr(v.Type()), v, rec(v.Len))
+		t := mk("alloc", typeStr(v.Type()), v, rec(v.Len))
+		// a slice filled by index assignment (`s := make([]T, n); s[i] = e`) carries its elements as
+		// `elemval` children, so that it reads like the append-built form to rules asking what it holds
+		if depth < 8 {
+			if refs := v.Referrers(); refs != nil {
+				for _, r := range *refs {
+					ia, ok := r.(*ssa.IndexAddr)
+					if !ok || ia.X != ssa.Value(v) || ia.Referrers() == nil {
+						continue
+					}
+					for _, u := range *ia.Referrers() {
+						if st, ok := u.(*ssa.Store); ok && st.Addr == ssa.Value(ia) && !busy[st.Val] {
+							t.Args = append(t.Args, mk("elemval", "", st.Val, rec(ia.Index), rec(st.Val)))
+						}
+					}
+				}
+			}
+		}
+		return t
 	case *ssa.MakeMap:
 		return mk("alloc", typeStr(v.Type()), v)
 	case *ssa.MakeChan:
@@ -157,7 +208,13 @@ func (p *Program) termOf1(v ssa.Value, busy map[ssa.Value]bool, depth int) *Term
 		}
 		return oneOf("phi", v, alts)
 	case *ssa.BinOp:
-		return mk("binop", v.Op.String(), v, rec(v.X), rec(v.Y))
+		x, y := rec(v.X), rec(v.Y)
+		// commutative integer arithmetic in a canonical operand order (base value, then length,
+		// then loop index, then constant), so that `1 + x`, `x + 1` are one shape
+		if (v.Op == token.ADD || v.Op == token.MUL) && !isStringType(v.Type()) && operandRank(x) > operandRank(y) {
+			x, y = y, x
+		}
+		return mk("binop", v.Op.String(), v, x, y)
 	case *ssa.UnOp:
 		switch v.Op {
 		case token.MUL:
@@ -477,13 +534,16 @@ func deref(t types.Type) types.Type {
 func structFieldName(t types.Type, i int) string {
 	t = deref(t)
 	if st, ok := t.Underlying().(*types.Struct); ok && i < st.NumFields() {
+		if n, isNamed := t.(*types.Named); isNamed {
+			return canonFieldName(n, st.Field(i).Name())
+		}
 		return st.Field(i).Name()
 	}
 	return fmt.Sprintf("f%d", i)
 }
 
 func typeStr(t types.Type) string {
-	return strings.ReplaceAll(types.TypeString(t, func(p *types.Package) string { return p.Name() }), modPath+"/", "")
+	return canonTypeString(strings.ReplaceAll(types.TypeString(t, func(p *types.Package) string { return p.Name() }), modPath+"/", ""))
 }
 
 func constString(c *ssa.Const) string {
